@@ -283,9 +283,7 @@ func c06ApplyFaults(m *c06Msg, pt string, faults []c06Fault) {
 				if c06Find(m.attrs, c06UnkOpt) < 0 {
 					m.attrs = append(m.attrs, c06Good("UNKNOWN", pt, false))
 				}
-				t := c06Good("UNKNOWN", pt, true)
-				t.bad = true
-				m.attrs = append(m.attrs, t)
+				m.attrs = append(m.attrs, c06Good("UNKNOWN", pt, true))
 				m.attrs = c06Move(m.attrs, len(m.attrs)-1, f.Pos)
 			case "wk": // unrecognised attribute sent as well-known (optional bit clear, transitive set)
 				m.attrs = append(m.attrs, c06TLV{0x40, c06UnkWk, []byte{1}, true})
@@ -308,19 +306,28 @@ func c06ApplyFaults(m *c06Msg, pt string, faults []c06Fault) {
 				if typ == 14 || typ == 15 {
 					panic("c06: " + f.A + " fault on a base without it")
 				}
+				if typ == 18 && f.K != "alone" && c06Find(m.attrs, 7) < 0 {
+					// AS4_AGGREGATOR normally travels with AGGREGATOR (RFC 6793 4.2.3)
+					m.attrs = append(m.attrs, c06Good("AGGREGATOR", pt, false))
+				}
 				m.attrs = append(m.attrs, c06Good(f.A, pt, false))
 				i = len(m.attrs) - 1
+			}
+			if f.K == "alone" {
+				m.attrs = c06Move(m.attrs, i, f.Pos)
+				continue
 			}
 			if f.K == "dup" {
 				var t c06TLV
 				switch typ {
+				// the extra copy is a second, different, well-formed instance: which of the two is
+				// "the first occurrence" is decided by the wire order (see good())
 				case 14:
-					t = c06TLV{0x80, 14, c06MpReach("Q2"), true}
+					t = c06TLV{0x80, 14, c06MpReach("Q2"), false}
 				case 15:
-					t = c06TLV{0x80, 15, c06MpUnreach("Q2"), true}
+					t = c06TLV{0x80, 15, c06MpUnreach("Q2"), false}
 				default:
 					t = c06Good(f.A, pt, true)
-					t.bad = true
 				}
 				m.attrs = append(m.attrs, t)
 				m.attrs = c06Move(m.attrs, len(m.attrs)-1, f.Pos)
